@@ -5,6 +5,7 @@ import SquidModel.Properties.C28
 #print axioms SquidModel.C28.rfc_header_end_to_end
 #print axioms SquidModel.C28.accepted_item_is_rfc_spec
 #print axioms SquidModel.C28.invalid_spec_ignores_header
+#print axioms SquidModel.C28.list_ends_only_at_end_of_header
 #print axioms SquidModel.C28.other_unit_ignored
 #print axioms SquidModel.C28.no_overflow
 #print axioms SquidModel.C28.parsed_specs_well_formed
